@@ -520,6 +520,7 @@ func Run(c *run.Ctx) {
 		return
 	}
 	followMissing(c)
+	followPresent(c)
 	idx := 0
 	for _, nm := range pinnedNames {
 		if c.Mine(idx) && !halt {
